@@ -9,9 +9,9 @@ PROPS = {
     'C02': {
         'e3_always': ['opt_levels'],
         'e3': ['compose_paths', 'path_optimizer', 'opt_levels'],
-        'units': ['paths', 'nullopt', 'brief'],
-        'decided': 'path composition used by the cl23 optimiser and NodePath (compose_paths) equals "follow p then q" for all paths >= 1; the cl23+ post-codegen passes: null_optimization keeps the value of well-formed generated code in every environment (as an expression / as an operand list, by induction over the code against a compositional evaluation spec with uninterpreted operators), null_optimization_of_code and Strategy23::post_codegen_function_optimize / post_codegen_output_optimize return code with the same value (given assumed contracts for remove_double_apply and brief_path_selection); SExp::atomize; brief_path_selection itself (unit brief): a chain (f (r (f ... N))) over a path N >= 1 is replaced by the one path the chain selects and the rewrite is applied at every evaluated position, giving code with the same value in every environment (lemmas compose_path, outer_step; consensus facts used as stated axioms: path lookup = traverse_path, f / r, a proper operand list ends in nil), under the preconditions that evaluated positions hold no Integer below 1 and no pair-headed form, and that the code has fewer than 2^31 nodes; is_quote_atom / is_first_atom / is_rest_atom',
-        'not_covered': ['remove_double_apply (contract ASSUMED in unit nullopt)', 'that the code handed from null_optimization / remove_double_apply to brief_path_selection meets brief_path_selection\'s preconditions (null_optimization can turn (q . 0) into a bare Integer 0): in unit nullopt the contract of brief_path_selection is therefore still an assumption at that call site', 'SExp::proper_list (contract ASSUMED in unit brief)', 'that codegen only emits well-formed code (atom operators; precondition at the unverified call site)', 'CSE, de-inlining, constant folding, fe_opt, strategy optimiser: bounded stand-in only (E3: 15 programs x argument sets x cl21/cl22/cl23 x -O off/on must agree on the returned value)', 'brief_path_selection_single call-site precondition', 'whole-pipeline equality of builds for all programs'],
+        'units': ['paths', 'nullopt', 'brief', 'dblapply'],
+        'decided': 'path composition used by the cl23 optimiser and NodePath (compose_paths) equals "follow p then q" for all paths >= 1; the cl23+ post-codegen passes: null_optimization keeps the value of well-formed generated code in every environment (as an expression / as an operand list, by induction over the code against a compositional evaluation spec with uninterpreted operators), null_optimization_of_code and Strategy23::post_codegen_function_optimize / post_codegen_output_optimize return code with the same value (given assumed contracts for remove_double_apply and brief_path_selection); SExp::atomize; brief_path_selection itself (unit brief): a chain (f (r (f ... N))) over a path N >= 1 is replaced by the one path the chain selects and the rewrite is applied at every evaluated position, giving code with the same value in every environment (lemmas compose_path, outer_step; consensus facts used as stated axioms: path lookup = traverse_path, f / r, a proper operand list ends in nil), under the preconditions that evaluated positions hold no Integer below 1 and no pair-headed form, and that the code has fewer than 2^31 nodes; is_quote_atom / is_first_atom / is_rest_atom; the three root rewrites of remove_double_apply (unit dblapply): change_double_to_single_apply ((a (q . P) 1) -> P), change_apply_double_quote ((a (q 1 . body) x) -> (q . body)) and collapse_constant_condition ((i C A B) with a quoted or nil condition -> the branch the consensus nil test selects) each return code that computes the same value whenever the original returns one, and strictly smaller code when they fire (consensus facts about a and i, their arity and eager operand evaluation used as stated axioms; the NodeSel patterns enter as assumed shape contracts, R50); primquote',
+        'not_covered': ['the recursive driver remove_double_apply (its contract stays ASSUMED in unit nullopt; finding F22 was in it): a program taken out of a quote becomes code for the next iteration, and no static well-formedness of the original tree that the verifier could carry through the loop covers it (pair-headed forms are applied to raw operands by the consensus evaluator, so the rewrite is only right for generated code)', 'that the code handed from null_optimization / remove_double_apply to brief_path_selection meets brief_path_selection\'s preconditions (null_optimization can turn (q . 0) into a bare Integer 0): in unit nullopt the contract of brief_path_selection is therefore still an assumption at that call site', 'SExp::proper_list (contract ASSUMED in unit brief)', 'that codegen only emits well-formed code (atom operators; precondition at the unverified call site)', 'CSE, de-inlining, constant folding, fe_opt, strategy optimiser: bounded stand-in only (E3: 15 programs x argument sets x cl21/cl22/cl23 x -O off/on must agree on the returned value)', 'brief_path_selection_single call-site precondition', 'whole-pipeline equality of builds for all programs'],
     },
     'C03': {
         'e3_always': ['classic_meaning'],
@@ -106,10 +106,10 @@ PROPS = {
         'not_covered': ['the other readers as wholes (read_ir, sexp_from_stream) and make_atom / restructure_list: bounded stand-in only (E3 no-panic sweep, bound stated in evidence)', 'compile, run, debug, REPL, dependency listing as wholes', 'termination of the include walk: recurse_dependencies <-> process_pp_form carry no decreases clause; include cycles overflow the stack (open finding F15, reproduced each run by the include_files stand-in in a child process)', 'located-error clause beyond C15', 'preconditions at unverified call sites (e.g. Stream length >= 1 at IRReader::backup) are assumptions'],
     },
     'C19': {
-        'units': ['atomicwrite'],
+        'units': ['atomicwrite', 'clvmcfile'],
         'e3': ['atomic_write'],
-        'decided': 'the mechanism only: atomic_write_file creates its temporary file in the directory of the target, writes exactly the new contents to it, and the target is only ever replaced by persisting that file (a rename within one directory); no other file-writing call occurs in atomic_write_file / gentle_overwrite; gentle_overwrite succeeds whenever old and new contents are equal up to surrounding whitespace, whatever the rewrite attempt returns',
-        'not_covered': ['atomicity of rename(2) (ASSUMED)', 'the whole "at every instant / killed at any point / concurrent readers" quantifier: no verifier here models crash points or concurrent observers', 'callers in clvmc.rs / py api'],
+        'decided': 'the mechanism only: atomic_write_file creates its temporary file in the directory of the target, writes exactly the new contents to it, and the target is only ever replaced by persisting that file (a rename within one directory); no other file-writing call occurs in atomic_write_file / gentle_overwrite; gentle_overwrite succeeds whenever old and new contents are equal up to surrounding whitespace, whatever the rewrite attempt returns; compile_clvm (file-to-file compilation, unit clvmcfile): between entry and return the only call that can change the output path is gentle_overwrite with the complete new contents (the compilation itself is cut to one opaque call, R51)',
+        'not_covered': ['atomicity of rename(2) (ASSUMED)', 'the whole "at every instant / killed at any point / concurrent readers" quantifier: no verifier here models crash points or concurrent observers', 'the Python binding\'s own writer (py/api.rs)', 'that the opaque compilation step (compile_clvm_inner) writes no file'],
         'assumptions': ['POSIX: rename(2) within one directory replaces the target atomically', 'tempfile::NamedTempFile::persist is rename(2) when source and target are on the same file system'],
     },
     'C11': {
